@@ -18,7 +18,7 @@ def leaf_spans(node, bl):
     def go(n):
         k = n.kind
         if k in ('operator', 'reservedword', 'pipe', 'word', 'assignment'):
-            out.append(n.pos + (False,))
+            out.append(n.pos + ('nl' if (k == 'operator' and n.op == '\n') else False,))
         elif k == 'redirect':
             out.append(n.pos + (n.heredoc is not None and n.heredoc.pos[1] <= n.pos[1],))
             if n.heredoc is not None: out.append(n.heredoc.pos + (True,))
@@ -93,6 +93,10 @@ def run(ctx):
             prev_end = None
             prev_body = False
             for (a, b, body) in spans:
+                if body == 'nl':
+                    # a newline that is an operator node of its own: a comment may be put right before it
+                    if prev_end is not None and not prev_body and s[a:a + 1] == '\n': edits.append((a, ' # c')); edits.append((a, '\t#x;y'))
+                    body = False
                 if prev_end is not None and a > prev_end and not prev_body and not body:
                     gap = s[prev_end:a]
                     if all(c in ' \t' for c in gap) or gap.lstrip(' \t').startswith('\n') or gap.lstrip(' \t').startswith('\\\n'):
